@@ -209,6 +209,9 @@ def explore_config(acc, subj, budget, w, b, tier, seed):
                                   size=len(h2) * 10 + len(chunk))
                 key = (fp(o), r2.n, r2.g)
                 acc.outcome((subj.name, budget, w, r2.n, r2.g))
+                if len(h2) == 3 and not acc.samples:
+                    acc.sample({"config": cfg, "history (chunk of utilities l=0.0 m=0.5 h=1.0 n=NaN, tape answers)": [[c, list(t)] for c, t in h2],
+                                "granted_in_last_chunk": idx, "observed": r2.n, "granted_total": r2.g, "bound": bound_value(subj, budget, w, r2.n)})
                 if key not in seen:
                     if len(seen) >= b["max_states_per_config"]:
                         capped = True
